@@ -832,7 +832,7 @@ parse_btt(vbi_decoder *vbi, uint8_t *raw, int packet)
 		break;
 	}
 
-	case 21 ... 23:
+	case 21 ... 22: /* not 23, btt_link[] has 2 * 5 elements */
 	    {
 		struct ttx_page_link *pl;
 		int i;
